@@ -9,7 +9,7 @@ from amc.core import Failure, Report, exc_sig
 from amc.checks import c14
 from amc.ref import elfio as EI
 
-TIMEOUT = 3.0
+TIMEOUT = 10.0
 
 
 class Watchdog(Exception):
